@@ -238,18 +238,42 @@ func (m *Machine) callSSA(caller *frame, fn *ssa.Function, args []Value, env []V
 	return m.runBody(caller, fn, args, env)
 }
 
+func (m *Machine) zeroResults(fn *ssa.Function) Value {
+	res := fn.Signature.Results()
+	switch res.Len() {
+	case 0:
+		return nil
+	case 1:
+		return m.zero(res.At(0).Type())
+	}
+	t := make(Tuple, res.Len())
+	for i := range t {
+		t[i] = m.zero(res.At(i).Type())
+	}
+	return t
+}
+
 // runBody interprets the SSA body of fn (no intrinsic lookup).
 func (m *Machine) runBody(caller *frame, fn *ssa.Function, args []Value, env []Value) Value {
 	if fn.Blocks == nil {
+		if m.X.inInit > 0 {
+			return m.zeroResults(fn)
+		}
 		m.abort("unsupported: no body for " + fn.String())
 	}
-	if fn.Pkg != nil && fn.Name() == "init" && fn.Parent() == nil && fn.Signature.Recv() == nil && fn.Synthetic != "" {
-		// package initialiser called from another initialiser: run lazily/once
-		m.ensureInit(fn.Pkg)
+	if caller != nil && fn.Pkg != nil && fn.Name() == "init" && fn.Parent() == nil && fn.Signature.Recv() == nil && fn.Synthetic != "" {
+		// A package initialiser called from another initialiser: stay lazy. That package is
+		// initialised on the first access to one of its globals (ensureInit).
 		return nil
 	}
 	if m.P.InterpDeny != nil {
 		if p := fn.Package(); p != nil && m.P.InterpDeny(p.Pkg.Path()) && !allowFuncs[fn.String()] {
+			if m.X.inInit > 0 {
+				// Inside a package initialiser, calls into the runtime/OS layer (godebug settings,
+				// monotonic clock base, …) yield zero values: such globals are not used by the code
+				// the harnesses execute, and anything that later depends on them is stubbed explicitly.
+				return m.zeroResults(fn)
+			}
 			m.abort("unsupported: call into denied package: " + fn.String())
 		}
 	}
